@@ -189,6 +189,7 @@ class PathCtx:
         line = getattr(node, "lineno", None) or self.cur_line
         ob = self.run.obligation(kind, name, line)
         ob.paths += 1
+        self.cur_oid = ob.oid
         if f is True:
             return
         t0 = time.time()
@@ -358,6 +359,10 @@ class Run:
         self.outcomes = []
         self.solver_s = 0.0
         self.stats = {"z3-inc": 0, "z3-oneshot": 0, "trivial": 0}
+        self.concrete_args = None
+        self.inline_all = False
+        self.on_refuted = None
+        self.cur_args = None
         from .lib import FLOAT_AXIOMS
         from .sym import div_axioms, ABSTRACT_NL
         ABSTRACT_NL[0] = not shape_mode
@@ -386,7 +391,12 @@ class Run:
         self.solver_s += time.time() - t0
         if r == z3.unsat:
             return "proved", "z3-inc", None
-        if r == z3.sat and self.shape_mode:
+        if r == z3.sat and self.shape_mode and not _has_quantifier(ctx.pc + [t]):
+            s.push()
+            s.add(z3.Not(t))
+            if s.check() == z3.sat and self.on_refuted is not None:
+                self.on_refuted(ctx, s.model(), self.cur_args, ctx.cur_oid)
+            s.pop()
             return "refuted", "z3-inc", None
         # retry in a fresh solver (different strategy selection)
         t0 = time.time()
@@ -433,7 +443,9 @@ def explore(run, on_path=None, max_paths=4000):
             raise CheckerError("path explosion in %s (> %d paths)" % (C.target, max_paths))
         ctx = PathCtx(run, decisions)
         try:
-            args = C.make_args(run.case, ctx, run.shape)
+            args = C.make_args(run.case, ctx, run.shape) if run.concrete_args is None else \
+                {k: ctx.clone_value(v) for k, v in run.concrete_args.items()}
+            run.cur_args = args
             a = Namespace(args)
             old = Namespace({k: ctx.clone_value(v) for k, v in args.items()})
             if C.requires is not None:
@@ -450,7 +462,9 @@ def explore(run, on_path=None, max_paths=4000):
             except _Return as r:
                 outcome, value = "return", r.value
             # ---- obligations on the outcome
-            if outcome == "return":
+            if run.inline_all:
+                pass      # differential run on concrete inputs: only the outcome is wanted
+            elif outcome == "return":
                 old.__dict__["post"] = a
                 if C.ensures is not None:
                     for nm, f in _named(C.ensures(old, value)):
